@@ -403,6 +403,12 @@ class BernoulliFamily(StatelessDistributionFamilyFromTorchDistribution):
     parameters: ClassVar = ("loc",)
     dist_factory: ClassVar = torch.distributions.Bernoulli
 
+    @classmethod
+    def _nll(cls, x: WeightedTensor, loc: torch.Tensor) -> WeightedTensor:
+        # Entries without weight (missing values, padding) may hold anything (e.g. NaN): the density is
+        # evaluated at a value of its support there, and their weight is kept (they never count).
+        return WeightedTensor(-cls.dist_factory(loc).log_prob(x.filled(0.0)), x.weight)
+
 
 class NormalFamily(StatelessDistributionFamilyFromTorchDistribution):
     """
